@@ -916,6 +916,33 @@ Section Correct.
       match goal with |- context [match ?r with Err _ => _ | Ok _ => _ end] => destruct r as [e|[p'|]]; reflexivity | _ => reflexivity end.
   Qed.
 
+  (* the body of a Loop1CharBody is one instruction whose step is the one-step function of the semantics *)
+  Lemma l1_body_insn body fwd off es cb eb stepf : l1_body_ok body = true ->
+    single_step ix (p_unicode prog) h (negb fwd) body fwd = Some stepf ->
+    emit_node utf16 (p_unicode prog) body off (negb fwd) es = Ok (cb, eb) -> brackets_ok eb ->
+    exists bi, cb = [bi] /\ es_next_loop eb = es_next_loop es /\
+      (forall q, stepf q = match pike_taken bi fwd q with Ok r => Some r | Err _ => None end) /\
+      ((leaf_code (negb fwd) body = Some [bi] /\ simple_insn bi = true) \/ (exists idx, bi = Bracket idx)).
+  Proof.
+    intros Hok Ess Eb Hbr. unfold single_step in Ess.
+    destruct (leaf_code (negb fwd) body) as [lc|] eqn:El.
+    - inversion Ess; subst stepf. clear Ess.
+      pose proof (emit_leaf body (negb fwd) es off lc El) as He'. rewrite Eb in He'. inversion He'; subst cb eb.
+      pose proof (leaf_code_simple _ _ _ El) as Hsimp.
+      destruct (l1_body_single body Hok (negb fwd) lc El) as (bi & ->). exists bi.
+      simpl in Hsimp. apply andb_true_iff in Hsimp as [H1 _].
+      split; [reflexivity|]. split; [reflexivity|]. split; [intro q; apply run_insns_single; exact H1|].
+      left. split; [reflexivity|exact H1].
+    - destruct body as [ | |c|bs|bs|cs|l0|a b| | |sol ml|inv ui|id c nm|g ic|b|alts icase|ng bw sg eg c|body' mn' mx' gr' egs ege|body' mn' mx' gr']; try discriminate. inversion Ess; subst stepf. clear Ess.
+      simpl in El. destruct (bracket_as_ascii b) eqn:Ea; [discriminate|].
+      simpl in Eb. rewrite Ea in Eb. inversion Eb; subst cb eb. clear Eb.
+      exists (Bracket (length (es_brackets es))). split; [reflexivity|]. split; [reflexivity|]. split; [|right; eauto].
+      intro q. unfold pike_taken. cbn [match1].
+      assert (Hnb : nth_error (p_brackets prog) (length (es_brackets es)) = Some b).
+      { apply Hbr. simpl. rewrite nth_error_app2 by lia. rewrite Nat.sub_diag. reflexivity. }
+      rewrite Hnb. destruct (next_if ix fwd h q (bracket_matches b)); reflexivity.
+  Qed.
+
   Lemma l1_ok f body mn mx gr fwd off es code es' x l : l1_body_ok body = true ->
     ir_results ix (p_unicode prog) utf16 h (S f) (NLoop1CharBody body mn mx gr) fwd x = Some l ->
     emit_node utf16 (p_unicode prog) (NLoop1CharBody body mn mx gr) off (negb fwd) es = Ok (code, es') ->
@@ -932,25 +959,9 @@ Section Correct.
     assert (Hp : ps_pos s = p) by (unfold obs in Hobs; congruence).
     assert (Hg : ps_groups s = gs) by (unfold obs in Hobs; congruence).
     apply code_at_cons in Hc as [Hi0 Hcb].
-    (* the body is one instruction whose step is stepf *)
-    assert (Hbody : exists bi, cb = [bi] /\
-              forall q, stepf q = match pike_taken bi fwd q with Ok r => Some r | Err _ => None end).
-    { unfold single_step in Ess.
-      destruct (leaf_code (negb fwd) body) as [lc|] eqn:El.
-      - inversion Ess; subst stepf. clear Ess.
-        pose proof (emit_leaf body (negb fwd) es (S off) lc El) as He'. rewrite Eb in He'. inversion He'; subst cb eb.
-        pose proof (leaf_code_simple _ _ _ El) as Hsimp.
-        destruct (l1_body_single body Hok (negb fwd) lc El) as (bi & Hbi). assert (Hsing : exists bi, lc = [bi]) by eauto. clear Hbi bi.
-        destruct Hsing as (bi & ->). exists bi. split; [reflexivity|].
-        intro q. apply run_insns_single. simpl in Hsimp. apply andb_true_iff in Hsimp as [H1 _]. exact H1.
-      - destruct body as [ | |c|bs|bs|cs|l0|a b| | |sol ml|inv ui|id c nm|g ic|b|alts icase|ng bw sg eg c|body' mn' mx' gr' egs ege|body' mn' mx' gr']; try discriminate. inversion Ess; subst stepf. clear Ess.
-        simpl in El. destruct (bracket_as_ascii b) eqn:Ea; [discriminate|].
-        simpl in Eb. rewrite Ea in Eb. inversion Eb; subst cb eb. clear Eb.
-        exists (Bracket (length (es_brackets es))). split; [reflexivity|].
-        intro q. unfold pike_taken. cbn [match1].
-        assert (Hnb : nth_error (p_brackets prog) (length (es_brackets es)) = Some b).
-        { apply Hbr. simpl. rewrite nth_error_app2 by lia. rewrite Nat.sub_diag. reflexivity. }
-        rewrite Hnb. destruct (next_if ix fwd h q (bracket_matches b)); reflexivity. }
+    destruct (l1_body_insn body fwd (S off) es cb eb stepf Hok Ess Eb Hbr) as (bi & Hcbe & _ & Hst & _).
+    assert (Hbody : exists bi, cb = [bi] /\ forall q, stepf q = match pike_taken bi fwd q with Ok r => Some r | Err _ => None end) by eauto.
+    clear Hcbe Hst bi.
     destruct Hbody as (bi & -> & Hst).
     apply code_at_cons in Hcb as [Hib _].
     replace (off + length [Loop1CharBody mn match mx with Some v => v | None => USIZE_MAX end gr; bi])%nat with (off + 2)%nat by (simpl; lia).
